@@ -39,7 +39,9 @@ template<class F> int run_cases(F f) {
     while (std::getline(std::cin, line)) {
         if (line.empty() || line[0] == '#') continue;
         std::ostringstream out;
-        try { Toks t(line); f(t, out); }
+        // whatever the library prints on std::cout (PARMCB_LOGGING builds) is not part of the case's answer: discard it while the case runs
+        struct Quiet { std::ostringstream sink; std::streambuf *old; Quiet() : old(std::cout.rdbuf(sink.rdbuf())) {} ~Quiet() { std::cout.rdbuf(old); } };
+        try { Quiet q; Toks t(line); f(t, out); }
         catch (const std::exception &e) { out.str(""); out << "IMPL-EXCEPTION " << e.what(); }
         catch (...) { out.str(""); out << "IMPL-EXCEPTION unknown"; }
         std::cout << out.str() << "\n";
